@@ -125,8 +125,18 @@ def staged_fit_event(darsia, rng, tid, modes):
         with warnings.catch_warnings():
             warnings.simplefilter("ignore")
             stage_res = [float(np.sum((src - dst) ** 2))]
-            for m in modes:
-                ab.find_balance(src, dst, mode=m)
+            # an affine stage may be requested by omitting the mode (the documented default), whatever was requested before;
+            # reset() in front of the last stage makes it a fit from the neutral balance
+            do_reset = len(modes) >= 2 and rng.random() < 0.3
+            for si, m in enumerate(modes):
+                if do_reset and si == len(modes) - 1:
+                    ab.reset()
+                    del fitted[:]
+                    stage_res = [float(np.sum((src - dst) ** 2))]
+                if m == "affine" and rng.random() < 0.6:
+                    ab.find_balance(src, dst)
+                else:
+                    ab.find_balance(src, dst, mode=m)
                 stage_res.append(float(np.sum((ab.apply_balance(src) - dst) ** 2)))
         acc = ab.apply_balance(src)
     finally:
